@@ -36,6 +36,8 @@ def bsSpelling? (kind : String) (l : List Int) : Option Compile.BsSpelling :=
   | "size", l => some (.size l)
   | "tuple", l => some (.tuple l)
   | "list", l => some (.list l)
+  | "iter", l => some (.iter l)
+  | "badseq", _ => some .badSeq
   | "int", [n] => some (.int n)
   | "absent", _ => some .none
   | "other", _ => some .other
@@ -123,7 +125,8 @@ def handleC18 (cmd : String) (args : List Sexp) : Option Sexp :=
   | "c18.infer_size", [.list shape, n] => do
       let shape ← ints? shape; let n ← asInt? n
       pure (.list [intsResToSexp (Gen.inferSizeImpl shape n), intsResToSexp (Gen.inferSizeImplLocal shape n),
-                   intsResToSexp (InferSize.infer shape n), intsResToSexp (InferSize.closedForm shape n)])
+                   intsResToSexp (InferSize.infer shape n), intsResToSexp (InferSize.closedForm shape n),
+                   intsResToSexp (InferSize.torchInfer shape n)])
   -- (c18.keylist list|tuple|other k…) → (cpp-call python-call)
   | "c18.keylist", (.atom kind :: ks) => do
       let a ← keysArg? kind ks
